@@ -63,6 +63,17 @@ def snippets() -> dict[str, str]:
     parts = re.findall(r'sql = f?"""(.*?)"""', src, flags=re.S)
     if len(parts) != 3:
         raise Untranslatable(f"unlinkables: expected 3 SQL templates, found {len(parts)}")
+    # the stacking of several input tables (bag semantics: UNION ALL)
+    from splink.internals.vertically_concatenate import vertically_concatenate_sql
+
+    class _DF:
+        def __init__(self, name):
+            self.physical_name = name + "_phys"
+            self.templated_name = name
+            self.columns_escaped = ['"a"', '"b"']
+            self.columns = []
+    out["vertical_concat"] = norm(vertically_concatenate_sql({"t1": _DF("t1"), "t2": _DF("t2"), "t3": _DF("t3")},
+                                                             salting_required=False, source_dataset_input_column=None))
     out["unlinkables_round"] = norm(parts[0].replace("{self_link_df.physical_name}", "self_link"))
     out["unlinkables_prop"] = norm(parts[1])
     out["unlinkables_cum"] = norm(parts[2])
@@ -94,4 +105,7 @@ EXPECTED = {'completeness': "select src as source_dataset, 'col' as column_name,
                      'cast(sum(count(*)) over () as float) as prop from __splink__df_round_self_link group '
                      'by match_probability order by match_probability',
  'unlinkables_round': 'select round(match_weight, 2) as match_weight, round(match_probability, 5) as '
-                      'match_probability from self_link'}
+                      'match_probability from self_link',
+ 'vertical_concat': 'select \'t1\' as source_dataset, "a", "b" from t1_phys union all select \'t2\' as '
+                    'source_dataset, "a", "b" from t2_phys union all select \'t3\' as source_dataset, "a", '
+                    '"b" from t3_phys'}
